@@ -47,7 +47,7 @@ let oracles (tab : (string * string) list) =
   (enc, dec, declen)
 
 let err_name = function
-  | EEOF -> "EOF" | EUnexpectedEOF -> "UEOF" | ECorrupt -> "CORRUPT" | EShortWrite -> "SHORT"
+  | EEOF -> "EOF" | EUnexpectedEOF -> "UEOF" | ECorrupt -> "CORRUPT" | EShortWrite -> "SHORT" | EIO -> "IO"
 
 let split3 (s : string) : string * string * string =
   match String.index_opt s ':' with
@@ -64,10 +64,11 @@ let parse_wop (s : string) : wop =
   | 'F' -> OFlush
   | 'R' ->
     let body = String.sub s 1 (String.length s - 1) in
-    (match String.index_opt body '/' with
-     | Some i -> OReadFrom (bytes_of_hex (String.sub body 0 i),
-                            nlist_of_csv (String.sub body (i + 1) (String.length body - i - 1)))
-     | None -> failwith "bad ReadFrom")
+    (match String.split_on_char '/' body with
+     | [d; steps; eofd; fails] ->
+       OReadFrom { src_data = bytes_of_hex d; src_steps = nlist_of_csv steps;
+                   src_eof_with_data = (eofd = "1"); src_fails = (fails = "1") }
+     | _ -> failwith "bad ReadFrom")
   | _ -> failwith "bad op"
 
 let wres_str = function
@@ -75,8 +76,17 @@ let wres_str = function
   | WErr (n, e) -> hex_of_n n ^ ":" ^ err_name e
   | WStuck -> "STUCK"
 
+(* every block the writer produced must be a snappy block for the decoder of
+   Spec/SnappyBlock.v (run when cheap: small chunks, or chunks that are mostly literals) *)
+let not_snappy (tab : (string * string) list) : bool =
+  List.exists (fun (b, c) ->
+      b <> "!" && (String.length c <= 16384 || String.length c >= String.length b)
+      && snappy_block_decode (bytes_of_hex c) <> Some (bytes_of_hex b)) tab
+
 let eval_xw (tab : string) (obj : string) (streams : string list) : string =
-  let (enc, dec, _) = oracles (parse_table tab) in
+  let ptab = parse_table tab in
+  if not_snappy ptab then "NOT-SNAPPY" else
+  let (enc, dec, _) = oracles ptab in
   let pooled = ref (
       if obj = "-" then None else
         match String.split_on_char ':' obj with
@@ -95,7 +105,7 @@ let eval_xw (tab : string) (obj : string) (streams : string list) : string =
          reference decoder of Spec/Xerial.v as the payload *)
       let all_ok = ok && List.for_all (function WOk _ -> true | _ -> false) rs in
       let explicit_flush = List.exists (function OFlush -> true | _ -> false) ops in
-      let payload = List.concat (List.map (function OWrite b -> b | OReadFrom (d, _) -> d | OFlush -> []) ops) in
+      let payload = List.concat (List.map (function OWrite b -> b | OReadFrom r -> r.src_data | OFlush -> []) ops) in
       if all_ok then begin
         if payload = [] then (if data <> [] then specdiff := true)
         else if framed then (if ref_decode dec data <> Some payload then specdiff := true)
@@ -131,6 +141,8 @@ let eval_xr (tab : string) (obj : string) (streams : string list) : string =
           let ((x', acc), st) = xr_write_to dec declen x in
           (x', acc, [], (match st with Some None -> "EOF" | Some (Some e) -> err_name e | None -> "STUCK"))
         end else begin
+          let then_copy = String.length mode > 2 && String.sub mode (String.length mode - 2) 2 = "+T" in
+          let mode = if then_copy then String.sub mode 0 (String.length mode - 2) else mode in
           let body = String.sub mode 1 (String.length mode - 1) in
           let (count, sizes) =
             match String.index_opt body 'x' with
@@ -142,7 +154,10 @@ let eval_xr (tab : string) (obj : string) (streams : string list) : string =
           let lens = List.filter_map (function RData b -> Some (hex_of_n (n_of_int (List.length b))) | _ -> None) rs in
           let final = List.fold_left (fun acc r ->
               match r with RErr e -> err_name e | RStuck -> "STUCK" | RData _ -> acc) "-" rs in
-          (x', data, lens, final)
+          if then_copy && final = "-" then begin
+            let ((x'', acc), st) = xr_write_to dec declen x' in
+            (x'', data @ acc, lens, (match st with Some None -> "EOF" | Some (Some e) -> err_name e | None -> "STUCK"))
+          end else (x', data, lens, final)
         end in
       let released = xr_close x' in
       pooled := Some released;
@@ -201,7 +216,8 @@ let eval (op : string) (a : string list) : string =
   | "xw", tab :: obj :: streams -> eval_xw tab obj streams
   | "xr", tab :: obj :: streams -> eval_xr tab obj streams
   | "pool", kind :: acts -> eval_pool kind acts
-  | ("rt" | "hist" | "conc"), _ -> "ok"
+  | "sb", [c] -> (match snappy_block_decode (bytes_of_hex c) with Some b -> hexs b | None -> "!")
+  | ("rt" | "hist" | "conc" | "quirk"), _ -> "ok"
   | _ -> "BADCASE"
 
 let () =
